@@ -237,6 +237,19 @@ func sectionCodec(rng *vh.Rng) {
 					want[p.Name] = p
 				}
 			}
+			// a definition that is not valid UTF-8 cannot be written to pipes.dat unchanged (encoding/json replaces the bytes):
+			// newPPipe refuses it (/repo 3cf6638); accepted = the pipe would come back from a restart under another name
+			for _, bad := range []pipe.Pipe{{Name: "bad\xff"}, {Name: "badtags", TagsCond: "a=\"\xfe\""}, {Name: "badflt", FltCond: "msg contains \"\xc0\x80\""}} {
+				if sr.Chance(1, 2) {
+					continue
+				}
+				if _, err := srv.Pipes.CreatePipe(bad); err == nil {
+					res.SpecFail(vh.SpecFailure{Section: "codec", Kind: "non-utf8-definition-accepted", Input: map[string]interface{}{"name_hex": hx(bad.Name), "tags_hex": hx(bad.TagsCond), "flt_hex": hx(bad.FltCond)},
+						Impl: "created", Spec: "refused", What: "a pipe definition that is not valid UTF-8 cannot survive a restart unchanged and must be refused"})
+					srv.Pipes.DeletePipe(bad.Name)
+				}
+				res.Dist(sec, "server-create=non-utf8 (must be refused)")
+			}
 			data, rerr := ioutil.ReadFile(filepath.Join(dir, "pipes", "pipes.dat"))
 			srv.Stop()
 			input := map[string]interface{}{"pipes": fmt.Sprint(want)}
